@@ -515,8 +515,9 @@ def replay_register():
     names = {(False, False): 'packet_listeners', (True, False): 'early_packet_listeners',
              (False, True): 'outgoing_packet_listeners', (True, True): 'early_outgoing_packet_listeners'}
     n = 0
-    for early in (None, False, True):
-        for outgoing in (None, False, True):
+    # flags are used by truthiness: 1 / 0 / '' select the same list as True / False (None here = keyword not passed)
+    for early in (None, False, True, 1, 0, ''):
+        for outgoing in (None, False, True, 1, 0):
             for via in ('method', 'decorator'):
                 n += 1
                 c = Connection('localhost', 25565)
